@@ -1145,7 +1145,8 @@ impl ByteCodeGenerator {
                 // Build dense array: fill with default, then set specific case offsets
                 // Add one extra slot at the end for the default offset (used for out-of-range values)
                 let table_size = (max_val - min_val + 1) as usize + 1; // +1 for default slot
-                let offsets = case_offsets.iter().fold(
+                // (in reverse order: of two cases with the same value the first one is taken)
+                let offsets = case_offsets.iter().rev().fold(
                     vec![default_offset; table_size],
                     |mut offsets, (lit_val, offset)| {
                         offsets[(lit_val - min_val) as usize] = *offset;
